@@ -86,6 +86,8 @@ type ClientConf struct {
 	WriteTimeoutMs int `json:"write_timeout_ms"` // -1: leave the default; 0 is meaningful (no timer)
 	DialTimeoutMs  int `json:"dial_timeout_ms,omitempty"`
 	ProxyTimeoutMs int `json:"proxy_timeout_ms,omitempty"` // TarsSetTimeout
+	// ProxyTimeoutSet: call TarsSetTimeout(ProxyTimeoutMs) also for values <= 0 (boundary values)
+	ProxyTimeoutSet bool `json:"proxy_timeout_set,omitempty"`
 	// keep-alive: AdapterProxy.autoKeepAlive ticks every ClientIdleTimeout/2 once a proxy with a push
 	// callback has made a call (PushCallback); endpointManager.checkStatus (every second) calls doKeepAlive
 	// when KeepAliveInterval > 0. Each doKeepAlive that is not refused takes a queueLen slot for a one-way
@@ -905,7 +907,7 @@ func RunChild(sc *Scenario) *Result {
 	for k := 0; k < nprx; k++ {
 		q := &prx{}
 		comm.StringToProxy("App.Server.Obj@"+strings.Join(eps, ":"), q)
-		if cl.ProxyTimeoutMs > 0 {
+		if cl.ProxyTimeoutMs > 0 || cl.ProxyTimeoutSet {
 			q.s.TarsSetTimeout(cl.ProxyTimeoutMs)
 		}
 		if cl.PushCallback {
@@ -1133,7 +1135,7 @@ func EffectiveTimeoutMs(sc *Scenario, c CallSpec) int {
 	case "ctx", "percall":
 		return c.TimeoutMs
 	}
-	if sc.Client.ProxyTimeoutMs > 0 {
+	if sc.Client.ProxyTimeoutMs > 0 || sc.Client.ProxyTimeoutSet {
 		return sc.Client.ProxyTimeoutMs
 	}
 	return 3000
